@@ -9,7 +9,7 @@ import qbft_engine as qe
 def main():
     R = vp.Result("C02")
     R.assumptions = [
-        "agreement is proved for executions in which Definition.Compare never reports a mismatch (default configuration); the general statement with CmpFail constrained to a fixed (process, value) relation is NOT yet proved (TODO-stage-2 in Properties/C02.v)",
+        "agreement is proved (Properties/C02.v) for executions in which Definition.Compare never reports a mismatch (default configuration), and (Properties/C02_cmp.v) for executions with compare failures whenever the verdict is a function of (process, value): CmpFail => cf i x and CmpOk => not cf i x, CmpTimeout free; with CmpOk unrestricted the statement is refuted (C02_cmp_refuted_if_cmpok_unrestricted)",
         "signatures and value hashes are symbolic: a message part with an honest source exists only if that member broadcast it; sources are cluster members (the wrapper rejects unknown peers)",
         "the model Qbft/Model.v is tied to core/qbft/qbft.go by sampled trace inclusion (one injected event at a time, quiescent between events via synctest.Wait); real races are interleavings of these atomic select-case bodies",
         "Go map-iteration nondeterminism is absorbed by admissibility checks (pick_ok / adm_qrc / fplus1_ok) that over-approximate the orders Go can produce",
@@ -29,4 +29,11 @@ def main():
                     qe.replay_obj(h))
     ncl = sum(1 for h in res["hs"] if h["kind"].startswith("cluster"))
     R.coverage["monitor"] = "C02: all Decide outputs of one execution carry the same value (cluster executions: %d); every cluster execution replayed as an execution of Qbft/Net.v by nrun (refused: %d)" % (ncl, len(res.get("net", [])))
+    # CmpFail extension built separately: props/c02_cmp.py
+    try:
+        import c02_cmp
+    except ImportError:
+        c02_cmp = None
+    if c02_cmp is not None:
+        c02_cmp.run(R)
     R.finish()
